@@ -10,6 +10,7 @@ type Profile struct {
 	Reopen   bool
 	PageSize int
 	AckPct   int
+	Empty    bool // now and then an event without contents (Next without Write)
 }
 
 func eventSize(r *rand.Rand, p Profile) int {
@@ -39,6 +40,10 @@ func History(r *rand.Rand, p Profile) []Op {
 	for i := 0; i < p.Steps; i++ {
 		switch x := r.Intn(100); {
 		case x < 35:
+			if p.Empty && r.Intn(20) == 0 {
+				ops = append(ops, Op{Kind: "next"})
+				continue
+			}
 			// one event, written in 1..4 chunks
 			n := eventSize(r, p)
 			chunks := 1
